@@ -91,3 +91,19 @@ C("c08-chk-size", "C08", UH, "        if cc and len(checksum) != cc:\n          
 C("c08-partial-compare", "C08", UH, "        return consteq(self._calc_checksum(secret), chk)", "        return consteq(self._calc_checksum(secret)[:8], chk[:8])", "C08.d")
 C("c08-fshp-assert", "C08", "passlib/handlers/sun_md5_crypt.py", "class sun_md5_crypt(", "class sun_md5_crypt(", "C08", "noop placeholder")
 CONTROLS.pop()
+
+# ---- C09
+SCR = "passlib/handlers/scrypt.py"
+C("c09-revert-F10", "C09", SCR, "            _scrypt.validate(\n                1 << subcls.default_rounds, subcls.block_size, subcls.parallelism\n            )", "            _scrypt.validate(1 << cls.default_rounds, cls.block_size, cls.parallelism)", "C09.c", "revert of fix 02ad664")
+C("c09-revert-F4", "C09", "passlib/handlers/des_crypt.py", "        rounds |= 1\n        # don't step past the configured upper bound (the hash would be flagged\n        # by needs_update() right away); use the odd value below it instead.\n        mx = cls.max_desired_rounds or cls.max_rounds\n        if mx and rounds > mx and rounds - 2 >= max(cls.min_desired_rounds or 0, cls.min_rounds):\n            rounds -= 2\n        return rounds\n", "        return rounds | 1\n", "C09.g", "revert of fix 6d7c1cc")
+C("c09-write-cls", "C09", UH, "                subcls.truncate_error = truncate_error", "                cls.truncate_error = truncate_error", "C09.b")
+C("c09-return-cls", "C09", SCR, "            ) from None\n\n        return subcls", "            ) from None\n\n        return cls", "C09.a")
+C("c09-no-norm", "C09", UH, "            subcls.parallelism = subcls._norm_parallelism(\n                parallelism, relaxed=kwds.get(\"relaxed\")\n            )", "            subcls.parallelism = parallelism", "C09.d")
+C("c09-clamp-min", "C09", UH, "            warn(msg, exc.PasslibHashWarning)\n            value = min\n", "            warn(msg, exc.PasslibHashWarning)\n", "C09.e")
+C("c09-clamp-max-strict", "C09", UH, "        if relaxed:\n            warn(msg, exc.PasslibHashWarning)\n            value = max\n        else:\n            raise ValueError(msg)", "        warn(msg, exc.PasslibHashWarning)\n        value = max", "C09.e")
+C("c09-setattr-guard", "C09", UH, "        if attr in self._proxy_attrs and self._derived_from:", "        if attr in self._proxy_attrs:", "C09.f")
+C("c09-vary-noclip", "C09", UH, "        return cls._clip_to_desired_rounds(lower), cls._clip_to_desired_rounds(upper)", "        return cls._clip_to_desired_rounds(lower), upper", "C09.g")
+C("c09-noreclip", "C09", UH, "        if subcls.default_rounds is not None:\n            subcls.default_rounds = subcls._clip_to_desired_rounds(\n                subcls.default_rounds\n            )\n", "", "C09.g")
+C("c09-typo-attr", "C09", "passlib/handlers/fshp.py", "            subcls.default_variant = cls._norm_variant(variant)", "            subcls.default_variants = cls._norm_variant(variant)", "C09.h")
+C("c09-kwds-dropped", "C09", SCR, "    def using(cls, block_size=None, **kwds):\n        subcls = super().using(**kwds)", "    def using(cls, block_size=None, **kwds):\n        subcls = super().using()", "C09.a")
+C("c09-norm-rounds-swap", "C09", UH, "cls, rounds, cls.min_rounds, cls.max_rounds, param=param, relaxed=relaxed", "cls, rounds, cls.max_rounds, cls.min_rounds, param=param, relaxed=relaxed", "C09.e")
